@@ -1,5 +1,6 @@
 import SarpyModel.Drivers.Util
 import SarpyModel.Spec.CphdLayout
+import SarpyModel.Drivers.CphdWriter
 namespace Sarpy.Drivers
 open Sarpy.Spec.CphdLayout
 
@@ -18,6 +19,12 @@ def cphdStep (toks : List String) : Option String :=
       | [a, b] => do pure ((← a.toNat?), (← b.toNat?))
       | _ => none)
     pure (",".intercalate ((elementRanges off rel).map (fun r => s!"{r.1}:{r.2}")))
+  | ["retry", xo, hb] => do
+    let xo ← xo.toNat?; let hb ← hb.toNat?
+    pure (match retryOffset xo hb with | some v => toString v | none => "N")
+  | "wrun" :: _ => cphdwStep toks          -- writer state machine (Drivers/CphdWriter.lean)
+  | "gen" :: _ => cphdGenStep toks         -- regenerated make_file_header kernels
+  | "hdrtext" :: _ => cphdHdrStep toks     -- explicit header text + retry rule
   | _ => none
 
 end Sarpy.Drivers
